@@ -147,13 +147,6 @@ def xfInsert {σ} (f : Xf σ) (sch : Schema) (i : Insert) (st : σ) : Option (In
     if cols.isEmpty then some (i, st) else
     (xfRows f t cols i.rows st).map fun (rows, st') => ({ i with rows := rows }, st')
 
-/-- the whole of `encryptInsertQuery` (PostgreSQL): a row source that is not a VALUES list
-(`GetValuesLists()` is empty for `INSERT … SELECT`) is not looked at, and neither is the
-`ON CONFLICT … DO UPDATE SET` list (the call is commented out in the source) – see the known findings
-`insert-select-plaintext` and `pg-on-conflict-plaintext`. -/
-def xfInsertStmt {σ} (f : Xf σ) (sch : Schema) (i : Insert) (st : σ) : Option (Insert × σ) :=
-  if i.fromSelect then some (i, st) else xfInsert f sch i st
-
 /-- the specification: positions (row, column) of the cells of an INSERT that belong to a
 configured column, with the setting -/
 def insertProtected (sch : Schema) (i : Insert) : List (Nat × Nat × ColSetting) :=
@@ -181,6 +174,17 @@ def xfUpdate {σ} (f : Xf σ) (sch : Schema) (u : Update) (st : σ) : Option (Up
   match sch.table u.table with
   | none => some (u, st)
   | some t => (xfSets f t u.sets st).map fun (sets, st') => ({ u with sets := sets }, st')
+
+/-- the whole of `encryptInsertQuery` (PostgreSQL): the VALUES rows – a row source that is not a VALUES list
+(`GetValuesLists()` is empty for `INSERT … SELECT`) is not looked at, known finding `insert-select-plaintext` –
+and then the assignments of `ON CONFLICT … DO UPDATE SET`, processed like the SET list of an UPDATE (after the
+`fix:` commit; the call was commented out before and the values went to the database in clear). -/
+def xfInsertStmt {σ} (f : Xf σ) (sch : Schema) (i : Insert) (st : σ) : Option (Insert × σ) :=
+  match sch.table i.table with
+  | none => some (i, st)
+  | some t =>
+    (if i.fromSelect then some (i, st) else xfInsert f sch i st).bind fun (i', st') =>
+      (xfSets f t i.onDup st').map fun (od, st'') => ({ i' with onDup := od }, st'')
 
 /-- the whole of `encryptUpdateQuery` (PostgreSQL): the value of a target of the multi-column form
 `SET (a, b) = (x, y)` is a `MultiAssignRef`, not a constant – `GetAConst()` is nil and nothing is
@@ -256,10 +260,14 @@ def bindPlan (sch : Schema) (s : Stmt) (nvalues : Nat) : BindPlan :=
     | some t =>
       let cols := insertColumns t i
       if cols.isEmpty then .untouched else
-      -- `INSERT … SELECT`: no VALUES lists to walk; placeholders of `ON CONFLICT` are not looked at
+      -- `INSERT … SELECT`: no VALUES lists to walk; then the placeholders assigned in `ON CONFLICT … DO UPDATE SET`
+      -- (after the `fix:` commit), checked against the number of bound values like the SET list of an UPDATE
       match insertPlaceholdersRows cols (if i.fromSelect then [] else i.rows) 0 [] with
       | none => .error
-      | some m => planOf t m
+      | some m =>
+        match updatePlaceholders nvalues i.onDup m with
+        | none => .error
+        | some m' => planOf t m'
   | .update u =>
     match sch.table u.table with
     | none => .untouched
